@@ -1,11 +1,13 @@
 let p_nl = p_list (p_list p_nat)
 let dispatch = function
   | "core" ->
-      let which = next_nat () in let w = next_mat next_q in let k = next_q () in
-      p_opt (fun ((m, kn), (po, pl)) -> ps "["; p_mat p_q m; ps ","; p_nat kn; ps ","; p_nl po; ps ","; p_nl pl; ps "]")
-        (run_core which w k)
+      (* kcore_bu / kcore_bd / score_wu as called: which, matrix, k, peel flag.
+         prints [matrix, kn, null] (2-tuple path) or [matrix, kn, [peelorder, peellevel]] *)
+      let which = next_nat () in let w = next_mat next_q in let k = next_q () in let b = next_bool () in
+      p_opt (fun ((m, kn), pp) -> ps "["; p_mat p_q m; ps ","; p_nat kn; ps ","; p_opt (p_pair p_nl p_nl) pp; ps "]")
+        (run_core_py which w k b)
   | "coreness" ->
       let which = next_nat () in let w = next_mat next_q in
-      p_opt (p_pair (p_list p_nat) (p_list p_nat)) (run_coreness which w)
+      p_opt (p_pair (p_list p_nat) (p_list p_nat)) (run_coreness_py which w)
   | f -> failwith ("unknown function " ^ f)
 let () = main dispatch
